@@ -170,7 +170,7 @@ def drv_sum(doc, args, inst):
             else:
                 r = x.sum(index[0] if args.get('as_int') else list(index))
                 dims = list(index) + ([i + d for i in index] if x.is_ttm else [])
-                ref = f.sum(dim=dims)
+                ref = f.sum(dim=dims) if dims else f          # an empty axis list sums nothing (torch's sum(dim=[]) would sum everything)
         except Exception as e:
             return ['sum raises %s: %s for %s index=%s' % (type(e).__name__, str(e)[:150], descr(x), index)]
         rf = r.full() if isinstance(r, TT) else r
@@ -682,6 +682,8 @@ def drv_misuse(doc, args, inst):
         'getitem_ttm_single_int': lambda: r([(3, 4)])[0],
         'getitem_ttm_single_slice': lambda: r([(3, 4)])[0:2],
         'getitem_bare_bool': lambda: r([5])[True],
+        'round_rmax_list_short': lambda: (r([2, 3, 4]) + r([2, 3, 4])).round(1e-10, [1, 2, 1]),
+        'round_rmax_list_long': lambda: (r([2, 3, 4]) + r([2, 3, 4])).round(1e-10, [1, 2, 2, 1, 7, 7]),
         'round_rmax_zero': lambda: r([2, 3, 4]).round(1e-10, rmax=0),
         'round_rmax_negative': lambda: r([2, 3, 4]).round(1e-10, rmax=0),
         'round_rmax_list_zero': lambda: r([2, 3]).round(1e-10, rmax=[1, 0, 1]),
@@ -1226,6 +1228,33 @@ def drv_grad_api(doc, args, inst):
                 'grad' if case == 'grad_twice' else 'grad_list', max(float((a - b).abs().max()) for a, b in zip(g2, ref2))))
         if any(not tn.equal(a, b) for a, b in zip(g1, g1_copy)):
             msgs.append('the list returned by the first call changed its value during the second call')
+    elif case in ('grad_partial_watch', 'grad_partial_watch_indices', 'grad_list_partial_watch'):
+        tt.grad.watch(x, [1, 2])
+        y = tt.random([3, 2], [1, 2, 1], dtype=tn.float64)
+        if case == 'grad_partial_watch':
+            v = (x * x).sum(); g = tt.grad.grad(v, x); want = [0, 1, 2]
+        elif case == 'grad_partial_watch_indices':
+            v = (x * x).sum(); g = tt.grad.grad(v, x, [0, 2]); want = [0, 2]
+        else:
+            tt.grad.watch(y)
+            v = (x * x).sum() + y.sum(); g = tt.grad.grad_list(v, [x, y])[:3]; want = [0, 1, 2]
+        x2 = tt.TT([c.detach().clone().requires_grad_(True) for c in x.cores])
+        ref = tn.autograd.grad((x2 * x2).sum(), x2.cores)
+        for j, kk in enumerate(want):
+            a = g[j] if j < len(g) else None
+            expect = tn.zeros_like(x.cores[0]) if kk == 0 else ref[kk]
+            if a is None or not tn.is_tensor(a) or a.shape != expect.shape or not tn.allclose(a, expect):
+                msgs.append('partially watched tensor (cores 1, 2): position %d of the result is not the derivative w.r.t. core %d (got %s)' % (
+                    j, kk, None if a is None else list(a.shape)))
+    elif case in ('grad_of_clone', 'grad_list_of_clone'):
+        tt.grad.watch(x)
+        z = x.clone()
+        v = (z * z).sum()
+        ref = tn.autograd.grad(v, z.cores, retain_graph=True)
+        g = tt.grad.grad(v, z) if case == 'grad_of_clone' else tt.grad.grad_list(v, [z])
+        if len(g) != 3 or any(a is None or not tn.allclose(a, b) for a, b in zip(g, ref)):
+            msgs.append('gradient w.r.t. the (non-leaf) cores of x.clone(): got %s, torch.autograd.grad gives tensors of norm %s' % (
+                [None if a is None else float(a.abs().max()) for a in g], [float(b.abs().max()) for b in ref]))
     elif case == 'grad_then_indices':
         tt.grad.watch(x)
         g1 = tt.grad.grad(x.sum(), x)
